@@ -33,7 +33,7 @@ import (
 // duplicated and out of order.
 
 type c02Op struct {
-	Kind string `json:"kind"` // new | edit | expire | deliver | gc | alertgc | reload | advance | mutes
+	Kind string `json:"kind"`          // new | edit | expire | deliver | gc | alertgc | reload | advance | mutes
 	On   string `json:"on,omitempty"`  // A | B (new, edit, expire)
 	Sil  int    `json:"sil,omitempty"` // index into the silences created so far (mod count)
 	// new / edit
@@ -41,6 +41,8 @@ type c02Op struct {
 	StartOff int             `json:"start_off,omitempty"` // seconds from now
 	EndOff   int             `json:"end_off,omitempty"`
 	Comment  string          `json:"comment,omitempty"`
+	// edit: also move the start to now + StartOff
+	MoveStart bool `json:"move_start,omitempty"`
 	// deliver
 	Msg int  `json:"msg,omitempty"` // index into the pool (mod size)
 	All bool `json:"all,omitempty"` // deliver B's full state instead
@@ -91,6 +93,15 @@ func genC02(t *rapid.T) c02Scenario {
 			if rapid.IntRange(0, 4).Draw(t, "chm") == 0 {
 				op.Sets = genC02Sets(t) // changes matchers: replaces
 				created++
+			}
+			// move the start: a pending silence is edited in place (sooner or later), an active one is replaced
+			if rapid.IntRange(0, 2).Draw(t, "chs") == 0 {
+				op.MoveStart = true
+				op.StartOff = rapid.SampledFrom([]int{0, 0, 5, 30, 120}).Draw(t, "estart")
+				if op.EndOff <= op.StartOff {
+					op.EndOff = op.StartOff + 60
+				}
+				created++ // may be replaced
 			}
 			sc.Ops = append(sc.Ops, op)
 		case k < 8:
@@ -232,6 +243,9 @@ func execC02(sc c02Scenario) (res pbt.Result) {
 					EndsAt: timestamppb.New(now.Add(time.Duration(op.EndOff) * time.Second))}
 				if op.Sets != nil {
 					n.MatcherSets = c02ToPB(op.Sets)
+				}
+				if op.MoveStart {
+					n.StartsAt = timestamppb.New(now.Add(time.Duration(op.StartOff) * time.Second))
 				}
 				if n.EndsAt.AsTime().Before(n.StartsAt.AsTime()) {
 					continue
